@@ -230,6 +230,29 @@ func runC04(c *Ctx) {
 			continue
 		}
 		pos := p.Rel(cl.un.Pos())
+		// completeness before verdict: if part of the codec escaped the extractor
+		// (cursor type, closures, a phase split into another method) nothing is compared
+		if why := incompleteCodec(w, cl.marshal, cl.un); why != "" {
+			for _, rule := range []string{"extract", "sym", "contig", "decl"} {
+				for _, stream := range []string{" params", " data"} {
+					if rule == "decl" && stream == " data" {
+						continue
+					}
+					key := cl.name + stream
+					if rule == "decl" {
+						key = cl.name + " decode"
+					}
+					r.OK(rule, key, pos, "NOT DECIDED — "+why)
+				}
+			}
+			r.OK("decl", cl.name+" encode", pos, "NOT DECIDED — "+why)
+			if cl.andx {
+				nAndX++
+				r.OK("andx", cl.name, pos, "NOT DECIDED — "+why)
+			}
+			r.Note("C04: %s not decided: %s", cl.name, why)
+			continue
+		}
 		if len(samples) < 6 {
 			samples = append(samples, fmt.Sprintf("%s enc params [%s] data [%s] | dec params [%s] data [%s]", cl.name,
 				codec.Render(cl.encP), codec.Render(cl.encD), codec.Render(cl.decP), codec.Render(cl.decD)))
@@ -247,7 +270,7 @@ func runC04(c *Ctx) {
 				}
 			}
 			if bad != "" {
-				r.Undecided("extract", key, pos, "layout not recognised: "+bad)
+				c.NotDecided("extract", key, pos, "layout not recognised: "+bad)
 				continue
 			}
 			r.OK("extract", key, pos, "encoder and decoder layouts fully recognised")
@@ -384,6 +407,17 @@ var declExempt = map[string]string{
 // compareLayouts: same atoms in the same order.
 func compareLayouts(c *Ctx, rule, key, pos string, enc, dec []codec.Atom) {
 	r := c.R
+	// an atom whose source or destination could not be named (bytes produced by
+	// an un-followed helper, a loop over something that is not a field) means the
+	// layout is only partly traced: nothing is compared
+	if why := untraced(enc, true); why != "" {
+		c.NotDecided(rule, key, pos, "encoder "+why)
+		return
+	}
+	if why := untraced(dec, false); why != "" {
+		c.NotDecided(rule, key, pos, "decoder "+why)
+		return
+	}
 	enc, dec = normalise(enc), normalise(dec)
 	n := len(enc)
 	if len(dec) > n {
@@ -580,4 +614,39 @@ func provedEqual(a *codec.Atom, exp lin.Form) bool {
 	}
 	cx := a.FI.CtxBefore(a.At)
 	return cx.Prove(lin.GE(*a.OffForm, exp)) && cx.Prove(lin.LE(*a.OffForm, exp))
+}
+
+// incompleteCodec: why the encoder's or decoder's extraction is incomplete ("" if complete).
+func incompleteCodec(w *prove.World, m, u *ssa.Function) string {
+	if m != nil {
+		if why := codec.NewExt(w, m).Incomplete(); why != "" {
+			return "Marshal: " + why
+		}
+	}
+	if u != nil {
+		if why := codec.NewExt(w, u).Incomplete(); why != "" {
+			return "Unmarshal: " + why
+		}
+	}
+	return ""
+}
+
+// untraced: some atom of the layout has no identifiable field/expression.
+func untraced(as []codec.Atom, isEnc bool) string {
+	for _, a := range as {
+		switch a.Kind {
+		case "repeat":
+			if a.Over == "" || (isEnc && strings.ContainsAny(a.Over, "()")) {
+				return "repeats over something that is not a receiver field: " + a.String()
+			}
+			if why := untraced(a.Body, isEnc); why != "" {
+				return why
+			}
+		case "fixed", "bytes":
+			if a.Field == "" && a.Expr == "" {
+				return "emits/reads bytes whose field could not be traced: " + a.String()
+			}
+		}
+	}
+	return ""
 }
